@@ -124,12 +124,31 @@ def _get_integer_bits(min_value,
   return integer_bits
 
 
+def _normalize_scale_axis(scale_axis: Any, len_axis: Any) -> Any:
+  """Counts negative axes from the end, as numpy and tensorflow do.
+
+  Args:
+    scale_axis: None, int or List[int] representing which axis/axes to
+      calculate scale at. -1 is the last axis.
+    len_axis: the rank of the tensor on which scaling is performed.
+
+  Returns:
+    scale_axis with every negative axis replaced by axis + len_axis.
+  """
+
+  if scale_axis is None:
+    return None
+  if isinstance(scale_axis, list):
+    return [a + len_axis if a < 0 else a for a in scale_axis]
+  return scale_axis + len_axis if scale_axis < 0 else scale_axis
+
+
 def _get_scaling_axis(scale_axis: Any, len_axis: int) -> List[int]:
   """Get the axis/axes to perform auto scaling at.
 
   Args:
     scale_axis: int or List[int] representing which axis/axes to calculate
-     scale at.
+     scale at. Negative axes are counted from the end.
     len_axis: int representing the shape of the tensor on which scaling is
       performed.
 
@@ -138,6 +157,7 @@ def _get_scaling_axis(scale_axis: Any, len_axis: int) -> List[int]:
 
   """
 
+  scale_axis = _normalize_scale_axis(scale_axis, len_axis)
   if scale_axis is not None:
     # if scale_axis is set, scale over all axis except the scale_axis.
     if isinstance(scale_axis, list):
@@ -390,6 +410,8 @@ def _get_scale_mean(
     # Get the input shape
     x_shape = x.shape.as_list()
 
+    # the unrolling below inserts axes: it needs non-negative scale axes
+    scale_axis = _normalize_scale_axis(scale_axis, len(x_shape))
     scale_axis, elements_per_scale = _validate_axis_and_eps(
         x_shape, scale_axis, elements_per_scale)
 
